@@ -6,6 +6,8 @@
   compiled form pairs wells and volumes element-wise in column-major order.
 -/
 import Robotools.Props.C02
+import Robotools.Props.C08
+import Robotools.Proofs.LedgerLemmas
 namespace Robotools.C04
 open Robotools
 
@@ -38,31 +40,247 @@ def InRange (w : World) : Micro → Prop
 /-- Shapes (number of labware, number of wells of each) never change. -/
 theorem micro_shape (w w' : World) (m : Micro) (h : w.micro m = .ok w') :
     w'.labs.length = w.labs.length ∧ ∀ l : Nat, (w'.labs[l]?).map (fun (L : Labware) => L.vols.length) = (w.labs[l]?).map (fun (L : Labware) => L.vols.length) := by
-  sorry
+  rcases World.micro_labs h with h1 | ⟨l0, L, L', hL, hset, hcase⟩
+  · rw [h1]; exact ⟨rfl, fun _ => rfl⟩
+  · have hlen : L'.vols.length = L.vols.length := by
+      rcases hcase with ⟨i, v, _, hs⟩ | ⟨i, v, c, co, _, hs⟩ | ⟨label, rfl⟩ | ⟨n, label, hs⟩
+      · rw [(Labware.removeStep_fields hs).2.1, List.length_set]
+      · rw [(Labware.addStep_fields hs).2.1, List.length_set]
+      · rfl
+      · rw [(Labware.condenseLog_fields hs).1]
+    rw [hset]
+    refine ⟨List.length_set, fun l => ?_⟩
+    rw [List.getElem?_set]
+    split
+    · rename_i heq
+      subst heq
+      have hlt : l0 < w.labs.length := (List.getElem?_eq_some_iff.1 hL).1
+      rw [if_pos hlt, hL, Option.map_some, Option.map_some, hlen]
+    · rfl
+
+/-- `InRange` only depends on the shapes, which successful micro-operations preserve. -/
+private theorem inRange_step (w w' : World) (m0 m : Micro) (h : w.micro m0 = .ok w')
+    (hr : InRange w m) : InRange w' m := by
+  have key : ∀ l i : Nat, (∃ L : Labware, w.labs[l]? = some L ∧ i < L.vols.length) →
+      ∃ L : Labware, w'.labs[l]? = some L ∧ i < L.vols.length := by
+    rintro l i ⟨L, hL, hi⟩
+    have hs := (micro_shape w w' m0 h).2 l
+    rw [hL] at hs
+    cases hL' : w'.labs[l]? with
+    | none => rw [hL'] at hs; cases hs
+    | some L' =>
+      rw [hL'] at hs
+      simp only [Option.map_some, Option.some.injEq] at hs
+      exact ⟨L', rfl, by omega⟩
+  cases m with
+  | rm l i v => exact key l i hr
+  | ad l i v c => exact key l i hr
+  | _ => trivial
+
+private theorem wvol_setLab (w : World) (l0 l i : Nat) (L L' : Labware) (hL : w.labs[l0]? = some L) :
+    wvol (w.setLab l0 L') l i = if l0 = l then L'.vol i else wvol w l i := by
+  have hlt : l0 < w.labs.length := (List.getElem?_eq_some_iff.1 hL).1
+  unfold wvol World.setLab
+  simp only [List.getElem?_set]
+  by_cases heq : l0 = l
+  · subst heq
+    simp only [if_pos hlt, if_true]
+  · simp only [if_neg heq]
+
+private theorem wvol_setLab_vols (w : World) (l0 l i : Nat) (L L' : Labware) (hL : w.labs[l0]? = some L)
+    (hv : L'.vols = L.vols) : wvol (w.setLab l0 L') l i = wvol w l i := by
+  rw [wvol_setLab w l0 l i L L' hL]
+  split
+  · rename_i heq
+    subst heq
+    unfold wvol
+    rw [hL]
+    simp only [Labware.vol, hv]
+  · rfl
+
+private theorem wvol_of_labs (w w' : World) (l i : Nat) (h : w'.labs = w.labs) : wvol w' l i = wvol w l i := by
+  unfold wvol; rw [h]
+
+private theorem delta_rm (l i l' i' : Nat) (v : Rat) :
+    delta l i (.rm l' i' v) = if l' = l ∧ i' = i then -v else 0 := rfl
+
+private theorem delta_ad (l i l' i' : Nat) (v : Rat) (c : CompSrc) :
+    delta l i (.ad l' i' v c) = if l' = l ∧ i' = i then v else 0 := rfl
+
+/-- One accepted micro-operation books exactly `delta` on every real well. -/
+private theorem micro_ledger (w w' : World) (m : Micro) (h : w.micro m = .ok w') (hr : InRange w m)
+    (l i : Nat) : wvol w' l i = wvol w l i + delta l i m := by
+  cases m with
+  | rm l0 i0 v =>
+    obtain ⟨L0, hL0, hi0⟩ := hr
+    simp only [World.micro, hL0] at h
+    split at h
+    · rename_i L' hL'
+      cases h
+      have hv := (Labware.removeStep_fields hL').2.1
+      rw [wvol_setLab w l0 l i L0 L' hL0, delta_rm]
+      by_cases hl : l0 = l
+      · subst hl
+        have hw : wvol w l0 i = L0.vol i := by unfold wvol; rw [hL0]
+        rw [if_pos rfl, hw]
+        by_cases hi : i0 = i
+        · subst hi
+          rw [if_pos ⟨rfl, rfl⟩]
+          simp only [Labware.vol, hv]
+          rw [getD_set_self _ _ _ _ hi0, Rat.sub_eq_add_neg]
+        · rw [if_neg (fun hc => hi hc.2), Rat.add_zero]
+          simp only [Labware.vol, hv]
+          exact getD_set_ne _ _ _ _ _ (fun e => hi e.symm)
+      · rw [if_neg hl, if_neg (fun hc => hl hc.1), Rat.add_zero]
+    · cases h
+  | ad l0 i0 v c =>
+    obtain ⟨L0, hL0, hi0⟩ := hr
+    simp only [World.micro, hL0] at h
+    split at h
+    · rename_i L' hL'
+      cases h
+      have hv := (Labware.addStep_fields hL').2.1
+      rw [wvol_setLab w l0 l i L0 L' hL0, delta_ad]
+      by_cases hl : l0 = l
+      · subst hl
+        have hw : wvol w l0 i = L0.vol i := by unfold wvol; rw [hL0]
+        rw [if_pos rfl, hw]
+        by_cases hi : i0 = i
+        · subst hi
+          rw [if_pos ⟨rfl, rfl⟩]
+          simp only [Labware.vol, hv]
+          rw [getD_set_self _ _ _ _ hi0]
+        · rw [if_neg (fun hc => hi hc.2), Rat.add_zero]
+          simp only [Labware.vol, hv]
+          exact getD_set_ne _ _ _ _ _ (fun e => hi e.symm)
+      · rw [if_neg hl, if_neg (fun hc => hl hc.1), Rat.add_zero]
+    · cases h
+  | loadComp l0 i0 =>
+    simp only [World.micro] at h
+    split at h
+    · cases h
+    · cases h
+      simp only [delta, Rat.add_zero]
+      exact wvol_of_labs _ _ l i rfl
+  | log l0 label =>
+    simp only [World.micro] at h
+    split at h
+    · cases h
+    · rename_i L hL
+      cases h
+      simp only [delta, Rat.add_zero]
+      exact wvol_setLab_vols w l0 l i L _ hL rfl
+  | condense l0 n label =>
+    simp only [World.micro] at h
+    split at h
+    · cases h
+    · rename_i L hL
+      split at h
+      · rename_i L' hL'
+        cases h
+        simp only [delta, Rat.add_zero]
+        exact wvol_setLab_vols w l0 l i L L' hL (Labware.condenseLog_fields hL').1
+      · cases h
+  | emit r =>
+    simp only [World.micro] at h
+    cases h
+    simp only [delta, Rat.add_zero]
+    exact wvol_of_labs _ _ l i rfl
+  | setDiti k =>
+    have hlabs : w'.labs = w.labs := by
+      simp only [World.micro] at h
+      split at h <;> split at h <;> first | (cases h; rfl) | cases h
+    simp only [delta, Rat.add_zero]
+    exact wvol_of_labs _ _ l i hlabs
+  | fail e =>
+    simp only [World.micro] at h
+    cases h
+
+private theorem executed_cons_ok {w w' : World} {m : Micro} (ms : List Micro)
+    (h : w.micro m = .ok w') : executed w (m :: ms) = m :: executed w' ms := by
+  simp only [executed, h]
+
+private theorem executed_cons_error {w : World} {m : Micro} {e : Err} (ms : List Micro)
+    (h : w.micro m = .error e) : executed w (m :: ms) = [] := by
+  simp only [executed, h]
 
 theorem executed_prefix (w : World) (ms : List Micro) : executed w ms <+: ms := by
-  sorry
+  induction ms generalizing w with
+  | nil => exact List.prefix_refl _
+  | cons m ms ih =>
+    unfold executed
+    split
+    · rename_i w' _
+      exact List.cons_prefix_cons.2 ⟨rfl, ih w'⟩
+    · exact List.nil_prefix
 
 theorem executed_all_of_ok (w w' : World) (ms : List Micro) (h : w.exec ms = (w', none)) : executed w ms = ms := by
-  sorry
+  induction ms generalizing w with
+  | nil => rfl
+  | cons m ms ih =>
+    cases hm : w.micro m with
+    | ok w1 =>
+      rw [World.exec_cons_ok _ hm] at h
+      unfold executed
+      rw [hm]
+      simp only
+      rw [ih w1 h]
+    | error e =>
+      rw [World.exec_cons_error _ hm] at h
+      cases h
 
 /-- The ledger: each real well's volume equals its previous volume plus everything added to it
     minus everything removed from it by the executed steps — for accepted operations (all steps)
     and for rejected ones (the accepted prefix). -/
 theorem exec_ledger (w : World) (ms : List Micro) (hr : ∀ m ∈ ms, InRange w m) (l i : Nat) :
     wvol (w.exec ms).1 l i = wvol w l i + ((executed w ms).map (delta l i)).sum := by
-  sorry
+  induction ms generalizing w with
+  | nil => simp only [World.exec_nil, executed, List.map_nil, List.sum_nil, Rat.add_zero]
+  | cons m ms ih =>
+    cases hm : w.micro m with
+    | ok w1 =>
+      have hstep := micro_ledger w w1 m hm (hr m List.mem_cons_self) l i
+      have hr1 : ∀ m' ∈ ms, InRange w1 m' := fun m' hm' =>
+        inRange_step w w1 m m' hm (hr m' (List.mem_cons_of_mem _ hm'))
+      rw [World.exec_cons_ok _ hm, ih w1 hr1, hstep, executed_cons_ok _ hm,
+        List.map_cons, List.sum_cons, Rat.add_assoc]
+    | error e =>
+      rw [World.exec_cons_error _ hm, executed_cons_error _ hm]
+      simp only [List.map_nil, List.sum_nil, Rat.add_zero]
 
 /-- Frame: wells that no executed step addresses are unchanged. -/
 theorem exec_frame (w : World) (ms : List Micro) (hr : ∀ m ∈ ms, InRange w m) (l i : Nat)
     (h : ∀ m ∈ ms, delta l i m = 0) : wvol (w.exec ms).1 l i = wvol w l i := by
-  sorry
+  rw [exec_ledger w ms hr l i]
+  have hz : ∀ (xs : List Micro), (∀ m ∈ xs, delta l i m = 0) → (xs.map (delta l i)).sum = 0 := by
+    intro xs
+    induction xs with
+    | nil => intro _; rfl
+    | cons x xs ih =>
+      intro hx
+      rw [List.map_cons, List.sum_cons, hx x List.mem_cons_self,
+        ih (fun m hm => hx m (List.mem_cons_of_mem _ hm)), Rat.add_zero]
+  rw [hz _ (fun m hm => h m ((executed_prefix w ms).subset hm)), Rat.add_zero]
 
 /-! ### Direct `add` / `remove` calls -/
 
 /-- Wells and volumes of a call after flattening (column-major) and scalar broadcasting. -/
 def callPairs (wells : Arr String) (vols : Arr Rat) : List (String × Rat) :=
   wells.flattenF.zip (broadcast1 vols.flattenF wells.flattenF.length)
+
+private theorem any_neg_false (vs : List Rat) (hnn : ∀ v ∈ vs, 0 ≤ v) :
+    (vs.any (· < 0)) = false := by
+  rw [List.any_eq_false]
+  intro v hv
+  have := hnn v hv
+  simp only [decide_eq_true_eq]
+  exact Rat.not_lt.2 this
+
+private theorem any_neg_true (vs : List Rat) (h : ∃ v ∈ vs, v < 0) :
+    (vs.any (· < 0)) = true := by
+  obtain ⟨v, hv, hlt⟩ := h
+  rw [List.any_eq_true]
+  exact ⟨v, hv, by simpa using hlt⟩
 
 /-- An accepted shape: as many volumes as wells (after broadcasting), none negative, every ID known. -/
 theorem compileRemove_shape (L : Labware) (l : Nat) (wells : Arr String) (vols : Arr Rat) (label : Option String)
@@ -72,7 +290,14 @@ theorem compileRemove_shape (L : Labware) (l : Nat) (wells : Arr String) (vols :
     (hres : wells.flattenF.map L.geom.resolveFlat = idx.map some) :
     compileRemove L l wells vols label
       = (idx.zip (broadcast1 vols.flattenF wells.flattenF.length)).map (fun (i, v) => Micro.rm l i v) ++ [.log l label] := by
-  sorry
+  unfold compileRemove
+  simp only
+  rw [if_neg (fun hne => hne hlen), any_neg_false _ hnn]
+  simp only [Bool.false_eq_true, if_false]
+  congr 1
+  apply map_zip_resolve L.geom.resolveFlat _ _ _ _ _ _ hres
+  intro w v i hi
+  simp only [hi]
 
 theorem compileAdd_shape (L : Labware) (l : Nat) (wells : Arr String) (vols : Arr Rat) (label : Option String)
     (idx : List Nat)
@@ -81,7 +306,14 @@ theorem compileAdd_shape (L : Labware) (l : Nat) (wells : Arr String) (vols : Ar
     (hres : wells.flattenF.map L.geom.resolveFlat = idx.map some) :
     compileAdd L l wells vols label none
       = (idx.zip (broadcast1 vols.flattenF wells.flattenF.length)).map (fun (i, v) => Micro.ad l i v .none) ++ [.log l label] := by
-  sorry
+  unfold compileAdd
+  simp only
+  rw [if_neg (fun hne => hne hlen), any_neg_false _ hnn]
+  simp only [Bool.false_eq_true, if_false]
+  congr 1
+  apply map_zip3_resolve L.geom.resolveFlat CompSrc.none _ _ _ _ _ _ hres
+  intro w v i hi
+  simp only [hi]
 
 /-- Calls with incompatible lengths or a negative volume are rejected before any well is touched. -/
 theorem compileAdd_rejects_shape (L : Labware) (l : Nat) (wells : Arr String) (vols : Arr Rat) (label : Option String)
@@ -89,48 +321,107 @@ theorem compileAdd_rejects_shape (L : Labware) (l : Nat) (wells : Arr String) (v
     (h : (broadcast1 vols.flattenF wells.flattenF.length).length ≠ wells.flattenF.length
          ∨ ∃ v ∈ broadcast1 vols.flattenF wells.flattenF.length, v < 0) :
     compileAdd L l wells vols label comps = [.fail .reject] := by
-  sorry
+  unfold compileAdd
+  simp only
+  rcases h with h | h
+  · rw [if_pos h]
+  · rw [any_neg_true _ h]
+    simp only [if_true, ite_self]
 
 theorem compileRemove_rejects_shape (L : Labware) (l : Nat) (wells : Arr String) (vols : Arr Rat) (label : Option String)
     (h : (broadcast1 vols.flattenF wells.flattenF.length).length ≠ wells.flattenF.length
          ∨ ∃ v ∈ broadcast1 vols.flattenF wells.flattenF.length, v < 0) :
     compileRemove L l wells vols label = [.fail .reject] := by
-  sorry
+  unfold compileRemove
+  simp only
+  rcases h with h | h
+  · rw [if_pos h]
+  · rw [any_neg_true _ h]
+    simp only [if_true, ite_self]
 
 /-- A scalar volume applies to every addressed well. -/
 theorem scalar_broadcast (v : Rat) (n : Nat) : broadcast1 (Arr.scalar v).flattenF n = List.replicate n v := by
-  sorry
+  rfl
+
+private theorem mat_index_lt {r c i j : Nat} (hi : i < r) (hj : j < c) : i * c + j < r * c :=
+  calc i * c + j < i * c + c := Nat.add_lt_add_left hj _
+    _ = (i + 1) * c := (Nat.succ_mul i c).symm
+    _ ≤ r * c := Nat.mul_le_mul_right c hi
+
+private theorem mat_col_isSome {α : Type} (r c : Nat) (l : List α) (hl : l.length = r * c) (j : Nat)
+    (hj : j < c) : ∀ i ∈ List.range r, (l[i * c + j]?).isSome = true := by
+  intro i hi
+  have hlt : i * c + j < l.length := by rw [hl]; exact mat_index_lt (List.mem_range.1 hi) hj
+  rw [List.getElem?_eq_getElem hlt]
+  rfl
+
+private theorem mat_col_length {α : Type} (r c : Nat) (l : List α) (hl : l.length = r * c) (j : Nat)
+    (hj : j < c) : ((List.range r).filterMap fun i => l[i * c + j]?).length = r := by
+  rw [filterMap_length_of_isSome _ _ (mat_col_isSome r c l hl j hj), List.length_range]
 
 /-- 2-D arguments are read column-major: element (i, j) of an r×c array is the (j*r+i)-th. -/
 theorem flattenF_mat_get {α : Type} (r c : Nat) (l : List α) (i j : Nat) (hl : l.length = r * c) (hi : i < r) (hj : j < c) :
     (Arr.mat r c l).flattenF[j * r + i]? = l[i * c + j]? := by
-  sorry
+  show ((List.range c).flatMap fun j => (List.range r).filterMap fun i => l[i * c + j]?)[j * r + i]?
+    = l[i * c + j]?
+  rw [flatMap_range_getElem? r _ c (fun j hj => mat_col_length r c l hl j hj) j i hj hi,
+    filterMap_getElem?_of_isSome _ _ (mat_col_isSome r c l hl j hj), List.getElem?_range hi,
+    Option.bind_some]
 
 theorem flattenF_mat_length {α : Type} (r c : Nat) (l : List α) (hl : l.length = r * c) :
     (Arr.mat r c l).flattenF.length = r * c := by
-  sorry
+  show ((List.range c).flatMap fun j => (List.range r).filterMap fun i => l[i * c + j]?).length
+    = r * c
+  rw [flatMap_range_length r _ c (fun j hj => mat_col_length r c l hl j hj), Nat.mul_comm]
 
 /-- Wells and volumes given as arrays of the same shape are paired element-wise. -/
 theorem flattenF_pairs {α β : Type} (r c : Nat) (ws : List α) (vs : List β) (hw : ws.length = r * c) (hv : vs.length = r * c) :
     (Arr.mat r c ws).flattenF.zip (Arr.mat r c vs).flattenF = (Arr.mat r c (ws.zip vs)).flattenF := by
-  sorry
+  have hz : (ws.zip vs).length = r * c := by rw [List.length_zip, hw, hv, Nat.min_self]
+  apply List.ext_getElem?
+  intro n
+  by_cases hn : n < r * c
+  · have hr : 0 < r := by
+      rcases Nat.eq_zero_or_pos r with h0 | h0
+      · rw [h0, Nat.zero_mul] at hn; cases hn
+      · exact h0
+    have hi : n % r < r := Nat.mod_lt _ hr
+    have hj : n / r < c := by
+      rw [Nat.div_lt_iff_lt_mul hr, Nat.mul_comm]; exact hn
+    have hsplit : n = n / r * r + n % r := (Nat.div_add_mod' n r).symm
+    rw [hsplit, List.zip_eq_zipWith, List.getElem?_zipWith',
+      flattenF_mat_get r c ws _ _ hw hi hj, flattenF_mat_get r c vs _ _ hv hi hj,
+      flattenF_mat_get r c _ _ _ hz hi hj, ← List.getElem?_zipWith', ← List.zip_eq_zipWith]
+  · have hn' : r * c ≤ n := Nat.le_of_not_lt hn
+    rw [List.getElem?_eq_none, List.getElem?_eq_none]
+    · rw [flattenF_mat_length r c _ hz]; exact hn'
+    · rw [List.length_zip, flattenF_mat_length r c _ hw, flattenF_mat_length r c _ hv, Nat.min_self]
+      exact hn'
 
 /-- In a trough every virtual-row ID of a column addresses the same single real well. -/
 theorem trough_alias (V C vr c : Nat) (hV : V ≤ 26) (hvr : vr < V) (hc : c < C) :
     ({ rows := 1, cols := C, vrows := some V } : Geom).resolveFlat (wellId vr c) = some c := by
-  sorry
+  have h := C08.resolve_trough V C vr c hV hvr hc
+  unfold C08.trough at h
+  simp only [Geom.resolveFlat, h, Option.map_some, Geom.flat, Nat.zero_mul, Nat.zero_add]
 
 /-- On a plate every ID addresses its own real well (row-major index). -/
 theorem plate_index (R C r c : Nat) (hR : R ≤ 26) (hr : r < R) (hc : c < C) :
     ({ rows := R, cols := C, vrows := none } : Geom).resolveFlat (wellId r c) = some (r * C + c) := by
-  sorry
+  have h := C08.resolve_plate R C r c hR hr hc
+  unfold C08.plate at h
+  simp only [Geom.resolveFlat, h, Option.map_some, Geom.flat]
 
 /-- A well listed several times is charged once per occurrence: the booked total of a list of
     steps on well `i` is the sum over all occurrences. -/
 theorem repeat_charged (l : Nat) (idx : List Nat) (vs : List Rat) (i : Nat) :
     (((idx.zip vs).map (fun (j, v) => Micro.ad l j v .none)).map (delta l i)).sum
       = ((idx.zip vs).map (fun (j, v) => if j = i then v else 0)).sum := by
-  sorry
+  rw [List.map_map]
+  congr 1
+  apply List.map_congr_left
+  rintro ⟨j, v⟩ _
+  simp only [Function.comp, delta_ad, true_and]
 
 example : delta 0 3 (.rm 0 3 5) = -5 ∧ delta 0 3 (.ad 0 2 5 .none) = 0 := by decide +kernel
 
